@@ -16,13 +16,14 @@
 //     handleGetMessages does).
 //
 // Two modes:
-//   replay  (TestVerifC04Replay): programs derived from TLC behaviours.  The
-//           verifhook gate parks the reader before every GetNext and on
-//           entering the back-off, so "node n applies batch k now" happens at
-//           exactly the model's point.
-//   random  (TestVerifC04Random): free running goroutines (two adders with
-//           lag, one client with random disconnects), the hook only injects
-//           random delays.  Events are recorded for GetMessagesTrace.tla.
+//
+//	replay  (TestVerifC04Replay): programs derived from TLC behaviours.  The
+//	        verifhook gate parks the reader before every GetNext and on
+//	        entering the back-off, so "node n applies batch k now" happens at
+//	        exactly the model's point.
+//	random  (TestVerifC04Random): free running goroutines (two adders with
+//	        lag, one client with random disconnects), the hook only injects
+//	        random delays.  Events are recorded for GetMessagesTrace.tla.
 //
 // "Reader is blocked inside GetNext" is OBSERVED, not guessed from timing.
 // GetNext consults ctx.Done() under messagesMu immediately before
@@ -326,7 +327,7 @@ func settle(r *reader, g *rig, confirm bool) (string, error) {
 					if found && st == "sync.Cond.Wait" && inGN {
 						break
 					}
-					if time.Since(t0) > 2*time.Second {
+					if time.Since(t0) > 5*time.Second {
 						return "", fmt.Errorf("wait signal not confirmed by goroutine state (%q, found=%v)", st, found)
 					}
 					time.Sleep(50 * time.Microsecond)
